@@ -20,7 +20,11 @@
 //   - pairs (pair_test.go): one operation each of two different roles of one group - consumer
 //     (Consume / SetConsumedSeq: the replica loop), acker (Ack: family flush callback, follower
 //     answer), ticker (Sync+GC), appender (Put) - the second one started inside a meta-page store
-//     of the first; only pairs both of whose sequential orders keep ack <= consumed <= appended.
+//     of the first; only pairs both of whose sequential orders keep ack <= consumed <= appended;
+//   - create steps (create_pair_test.go, TestGroupCreateRace): GetOrCreateConsumerGroup of a new or a
+//     stopped group (buildReplica / IsExpire / getReplicaState) interleaved with operations of other
+//     roles at the page steps of the opening; reopen_stress_test.go races it against Sync+GC on real
+//     goroutines.
 package c06
 
 import (
@@ -153,6 +157,11 @@ type world struct {
 	ntReopen bool
 	ntPair   bool // some pair step really interleaved (the nested operation started inside the first one)
 	pairTick bool // the current step was a pair with a Sync: the queue ack may follow an ack of this very step
+
+	// create_pair_test.go
+	createRace bool   // the machine also interleaves the (re)opening of a group with operations of other roles
+	freshNow   string // group created from scratch (no meta page) by the current step: it may start below the queue ack
+	ntCreate   bool   // some create step ran a Sync inside the window of a lagging re-opened group (see opCreatePair)
 }
 
 func (w *world) logf(format string, args ...any) {
@@ -370,6 +379,9 @@ func (w *world) check(where string) {
 
 	if w.pairTick && qa != w.prevQAck && !w.resetNow {
 		for n, a := range acks { // group acks only grow inside a pair step
+			if n == w.freshNow {
+				continue // a brand-new group starts at -1 (FA of DESIGN 4/C06): it never existed below the barrier
+			}
 			if qa > a {
 				w.fatalf("%s: queue acknowledged position moved %d -> %d, beyond the acknowledged position %d of existing group %s",
 					where, w.prevQAck, qa, a, n)
@@ -380,6 +392,7 @@ func (w *world) check(where string) {
 	w.prevAcks = acks
 	w.resetNow = false
 	w.pairTick = false
+	w.freshNow = ""
 }
 
 // ---- operations --------------------------------------------------------------------------------
@@ -878,6 +891,10 @@ func (w *world) catchUpAll(maxBehind int) bool {
 // ---- the state machine -------------------------------------------------------------------------
 
 func runHistory(t *rapid.T, test string, thorough, heavy bool) {
+	runHistoryMode(t, test, thorough, heavy, false)
+}
+
+func runHistoryMode(t *rapid.T, test string, thorough, heavy, createRace bool) {
 	root, err := os.MkdirTemp("", "c06-")
 	if err != nil {
 		t.Fatalf("harness: %v", err)
@@ -887,7 +904,7 @@ func runHistory(t *rapid.T, test string, thorough, heavy bool) {
 		appended: -1, qack: -1, prevQAck: -1,
 		msgs: map[int64]msg{}, groups: map[string]*grp{}, classes: map[string]int{},
 		universe: []string{"1", "2", "3", "4"}, // production names groups by node id
-		thorough: thorough, heavy: heavy,
+		thorough: thorough, heavy: heavy, createRace: createRace,
 	}
 	defer func() {
 		if w.fq != nil {
@@ -944,6 +961,16 @@ func runHistory(t *rapid.T, test string, thorough, heavy bool) {
 		"pair2":       step(w.opPair),
 		"":            step(func() { w.check("after step") }),
 	}
+	if createRace {
+		// TestGroupCreateRace: the same machine plus the interleaved (re)opening of groups; groups are
+		// stopped and the others move on more often, so that re-opened groups lag behind
+		for _, k := range []string{"createPair", "createPair2", "createPair3", "createPair4", "createPair5", "createPair6"} {
+			actions[k] = step(w.opCreatePair)
+		}
+		actions["stopGroup2"] = step(w.opStopGroup)
+		actions["stopGroup3"] = step(w.opStopGroup)
+		actions["catchUpAll2"] = step(w.opCatchUpAll)
+	}
 	if heavy {
 		delete(actions, "pause") // a paused group pins the queue ack until the next reopen
 		actions["bigAppend"] = step(w.opBigAppend)
@@ -998,9 +1025,14 @@ func runHistory(t *rapid.T, test string, thorough, heavy bool) {
 	for c, k := range w.classes {
 		ev.Class(test, c, k)
 	}
-	ev.Case(test, strings.Join(w.ops, ";"), (w.ntGC || w.ntReopen) && heavyNT, nil,
+	nonTrivial := (w.ntGC || w.ntReopen) && heavyNT
+	if createRace {
+		nonTrivial = w.ntCreate
+	}
+	ev.Case(test, strings.Join(w.ops, ";"), nonTrivial, nil,
 		map[string]any{"history": w.ops, "final": w.modelString(),
-			"gc_removed_page_with_different_acks": w.ntGC, "reopen_with_positions": w.ntReopen, "interleaved_pair": w.ntPair})
+			"gc_removed_page_with_different_acks": w.ntGC, "reopen_with_positions": w.ntReopen, "interleaved_pair": w.ntPair,
+			"sync_inside_reopen_window_of_lagging_group": w.ntCreate})
 }
 
 func (w *world) anyKnownShape() bool {
